@@ -73,6 +73,8 @@ structure RState where
   closures : Array Closure := #[]
   /-- `rcontext['__error__']`: (pos, len) of the failing expression, innermost function first -/
   errs : Array (Nat × Nat) := #[]
+  /-- number of `tal:repeat` activations so far (gives every loop its own identity) -/
+  loops : Nat := 0
   deriving Inhabited
 
 /-- a template other than the one being rendered: compiled when first used -/
@@ -806,9 +808,14 @@ def eval (cfg : ECfg) (al : List (Str × Val)) : Nat → Node → RM Unit
       let key : Str := match names with
         | [nm] => nm.str
         | _ => (names.map (fun nm => nm.str ++ [44])).flatten
-      modEnv (fun e => { e with repeats := (key, { length := items.length, consumed := 0 }) :: e.repeats.filter (·.1 != key) })
+      -- the RepeatItem is a new object; the loop keeps advancing *its* iterator even when an inner loop of the same
+      -- name has put another item under `repeat[name]` meanwhile (D-08a)
+      let s1 ← mGet
+      let tag : Str := key ++ [0] ++ natToStr (s1.loops + 1)
+      mModify (fun s => { s with loops := s.loops + 1 })
+      modEnv (fun e => { e with repeats := (key, { length := items.length, consumed := 0, tag := tag }) :: e.repeats.filter (·.1 != key) })
       names.forM (fun nm => setVar nm.str .none)
-      evalRepeat cfg al f key names local_ ws node items items.length
+      evalRepeat cfg al f tag names local_ ws node items items.length
       -- `if local: outer += self._leave_assignment(names)`
       if local_ then restore backups else pure ()
     | .onError id fallback node => fun s =>
@@ -978,7 +985,7 @@ def evalRepeat (cfg : ECfg) (al : List (Str × Val)) : Nat → Str → List Tok 
   | _, _, _, _, _, _, [], _ => pure ()
   | f+1, key, names, local_, ws, node, item :: rest, remaining => do
     -- next(): the shared iterator advances
-    modEnv (fun e => { e with repeats := e.repeats.map (fun (k, r) => if k == key then (k, { r with consumed := r.consumed + 1 }) else (k, r)) })
+    modEnv (fun e => { e with repeats := e.repeats.map (fun (k, r) => if r.tag == key then (k, { r with consumed := r.consumed + 1 }) else (k, r)) })
     match names with
     | [nm] => do
       setVar nm.str item
